@@ -110,10 +110,55 @@ def scenarios_for(pid, tier, seed, scale):
     return scs
 
 
+def design_level(pid, tier, seed, scale):
+    """TLC on the contract itself (FBRefMC): exhaustive small configurations, plus simulation that
+    exports behaviours for replay on the real code.  Returns (mc_stats, scenarios, machinery)."""
+    from . import fromtlc
+    P = props.PROPS[pid]
+    stats, scs, mach = [], [], []
+    jobs = P.get('mc_quick', ['MC_quick.cfg']) if tier == 'quick' else \
+        P.get('mc_quick', ['MC_quick.cfg']) + P.get('mc_thorough', [])
+    for job in jobs:
+        cfg, tmo = (job, 900) if isinstance(job, str) else job
+        try:
+            ok, st, out = tlc.model_check(cfg, 'FBRefMC.tla', workers=16, timeout=tmo + 60,
+                                          extra=(), heap='12g', soft_timeout=tmo)
+        except Exception as x:      # noqa
+            mach.append(('mc:' + cfg, repr(x)[:1000]))
+            continue
+        st['cfg'] = cfg
+        st['exhaustive'] = bool(ok and not st.get('timed_out'))
+        stats.append(st)
+        if not ok and not st.get('timed_out'):
+            mach.append(('mc:' + cfg, 'TLC reports an error in the contract model:\n' + out[-3000:]))
+    sim = P.get('sim', ('MC_sim.cfg', 100, 1500, 60))
+    if sim:
+        cfg, nq, nt, depth = sim
+        num = max(1, int((nq if tier == 'quick' else nt) * scale))
+        hists, st, ok, errs = fromtlc.simulate_parallel(cfg, num, depth, seed)
+        st['cfg'] = cfg + ' (simulate, 16 x num=%d depth=%d)' % (num, depth)
+        st['behaviours_exported'] = len(hists)
+        stats.append(st)
+        if not ok:
+            mach.append(('sim:' + cfg, 'TLC simulation reports an error in the contract model:\n' + errs[0]))
+        cap = 3000 if tier == 'quick' else 40000
+        st['behaviours_replayed'] = min(cap, len(hists))
+        if len(hists) > cap:
+            import random
+            random.Random(seed).shuffle(hists)
+            hists = hists[:cap]
+        for i, h in enumerate(hists):
+            scs.append(fromtlc.scenario_of(h, 'tlc-%s-%d-%d' % (pid, seed, i)))
+    return stats, scs, mach
+
+
 def run_scenario_property(pid, tier, seed, scale=1.0, extra_outs=(), mc_stats=(), extra_cov=None):
     t0 = time.time()
     P = props.PROPS[pid]
     scs = scenarios_for(pid, tier, seed, scale)
+    dstats, dscs, dmach = design_level(pid, tier, seed, scale)
+    mc_stats = list(mc_stats) + dstats
+    scs = dscs + scs
     owned = set(P['owned'])
     outs = list(extra_outs)
     # validate in chunks to bound memory
@@ -125,6 +170,10 @@ def run_scenario_property(pid, tier, seed, scale=1.0, extra_outs=(), mc_stats=()
             for x in o.others:
                 keep.append(x)
             o.others = keep
+        outs.append(o)
+    if dmach:
+        o = runner.Outcome()
+        o.machinery = dmach
         outs.append(o)
     return _finish(pid, tier, seed, t0, outs, list(mc_stats), P['rule'], ASSUME, extra_cov)
 
@@ -177,11 +226,17 @@ def run_fault_property(pid, tier, seed, scale=1.0):
             continue
         m = int((q if tier == 'quick' else t) * scale)
         scs += [gen.make_scenario(seed * 1_000_000 + i, prof) for i in range(m)]
+    dstats, dscs, dmach = design_level(pid, tier, seed, scale)
+    scs = dscs + scs
     outs = []
+    if dmach:
+        o = runner.Outcome()
+        o.machinery = dmach
+        outs.append(o)
     CH = 6000
     for i in range(0, len(scs), CH):
         outs.append(runner.judge(pid, scs[i:i + CH], set(P['owned']), P['nontrivial'], tlc))
-    return _finish(pid, tier, seed, t0, outs, [], P['rule'], ASSUME + [
+    return _finish(pid, tier, seed, t0, outs, dstats, P['rule'], ASSUME + [
         'fault space = the library\'s own mkdir/makedirs/rename/cache-open/cache-write calls issued before '
         'commit or rollback starts (C14 statement); one fault per execution'])
 
